@@ -2,10 +2,13 @@
 Spec: spec/concat/DrillholeConcat.tla ; implementation driver: harness/concat_impl.py ; comparison: harness/concat_check.py"""
 from __future__ import annotations
 
+import json
 import os
 import random
 import re
 import shutil
+import subprocess
+import sys
 import tempfile
 import time
 from collections import Counter, deque
@@ -19,11 +22,51 @@ from ..tlc import MachineryError
 SPEC_DIR = tlc.SPEC / "concat"
 ALL_DEV = ["RenameKeepsLabel", "WsRemoveKeepsChild", "HoleRemovalKeepsObjectRows", "HoleRemovalKeepsGroupChild",
            "StalePgIdCache", "EmptyTableRaises", "TableByLabel"]
-EXPORTS = {"quick": ["DrillholeConcatExportQuick.cfg", "DrillholeConcatExportQuick20.cfg"],
-           "thorough": ["DrillholeConcatExportThorough.cfg", "DrillholeConcatExportThorough20.cfg"]}
+# (cfg, format version, number of paths replayed: None = the complete path cover, n = seeded sample)
+EXPORTS = {"quick": [("DrillholeConcatExportQuick.cfg", 21, 1800), ("DrillholeConcatExportDeep.cfg", 21, None),
+                     ("DrillholeConcatExportQuick20.cfg", 20, None)],
+           "thorough": [("DrillholeConcatExportQuick.cfg", 21, None), ("DrillholeConcatExportDeep.cfg", 21, None),
+                        ("DrillholeConcatExportQuick20.cfg", 20, None), ("DrillholeConcatExportThorough20.cfg", 20, 2500),
+                        ("DrillholeConcatExportThorough.cfg", 21, 5000), ("DrillholeConcatExportThorough5.cfg", 21, 4000)]}
 IDEAL = {"quick": "DrillholeConcatIdealQuick.cfg", "thorough": "DrillholeConcatIdealThorough.cfg"}
+SINGLE_NEG = {"RenameKeepsLabel": "ReadBackOK", "WsRemoveKeepsChild": "KeysMatchChildren",
+              "HoleRemovalKeepsObjectRows": "RowsOwnedLive", "HoleRemovalKeepsGroupChild": "GroupChildrenLive",
+              "StalePgIdCache": "PgCacheFresh", "EmptyTableRaises": "TableOK", "TableByLabel": "TableOK"}
 NEGATIVE = [("DrillholeConcatAsBuilt.cfg", None)]
 JENV = {"JAVA_TOOL_OPTIONS": "-Xss64m"}  # Populate composes ~10 operators: deep lazy evaluation
+
+
+_BG = """
+import json, sys
+sys.path.insert(0, sys.argv[1])
+from harness import tlc
+try:
+    r = tlc.run_tlc(tlc.SPEC / "concat", "DrillholeConcat", sys.argv[2], workers=int(sys.argv[3]), heap=sys.argv[4],
+                    keep_lines=False, timeout=3000, env_extra={"JAVA_TOOL_OPTIONS": "-Xss64m"})
+    print("RESULT " + json.dumps({"ok": r.ok, "violated": r.violated, "distinct": r.distinct, "generated": r.generated,
+                                  "wall_s": r.wall_s, "tail": r.raw_tail[-1500:]}))
+except Exception as exc:
+    print("RESULT " + json.dumps({"error": str(exc)[-2000:]}))
+"""
+
+
+class _Bg:
+    """A design-level TLC run in a separate process (no threads in the parent: the replay pool forks)."""
+
+    def __init__(self, cfg, workers, heap="4g"):
+        self.cfg = cfg
+        self.proc = subprocess.Popen([sys.executable, "-c", _BG, str(tlc.VERIF), cfg, str(workers), heap],
+                                     stdout=subprocess.PIPE, stderr=subprocess.DEVNULL, text=True)
+
+    def result(self):
+        out, _ = self.proc.communicate()
+        line = [x for x in out.splitlines() if x.startswith("RESULT ")]
+        if not line:
+            raise MachineryError(f"background TLC run {self.cfg} produced no result")
+        doc = json.loads(line[-1][7:])
+        if "error" in doc:
+            raise MachineryError(f"TLC on {self.cfg}: {doc['error']}")
+        return doc
 
 
 def _with_deviations(cfg_name, devs, workdir):
@@ -40,7 +83,7 @@ def _with_deviations(cfg_name, devs, workdir):
 
 def _export(cfg_name, devs, workdir):
     _with_deviations(cfg_name, devs, workdir)
-    res = tlc.run_tlc(workdir, "DrillholeConcat", cfg_name, workers=1, heap="4g", timeout=3000, env_extra=JENV)
+    res = tlc.run_tlc(workdir, "DrillholeConcat", cfg_name, workers=4, heap="4g", timeout=3000, env_extra=JENV)
     if not res.ok:
         raise MachineryError(f"TLC reports {res.violated} on export {cfg_name}\n{res.raw_tail[-1500:]}")
     g = tlc.build_graph(res.lines)
@@ -144,20 +187,21 @@ def run(tier, seed):
     exhaustive = True
     devs_used = None
     acts_seen = Counter()
+    procs = int(os.environ.get("VERIF_PROCS", "16"))
+    bg = []
     try:
-        # (1) design level: the ideal specification satisfies the property
-        ideal = tlc.run_tlc(SPEC_DIR, "DrillholeConcat", IDEAL[tier], workers=int(os.environ.get("VERIF_PROCS", "16")) // 2 or 1,
-                            heap="4g", keep_lines=False, timeout=3000, env_extra=JENV)
-        if not ideal.ok:
-            raise MachineryError(f"the ideal specification violates {ideal.violated}\n{ideal.raw_tail[-1500:]}")
-        # (2) negative control: the as-built deviations violate the invariants
-        neg = tlc.run_tlc(SPEC_DIR, "DrillholeConcat", "DrillholeConcatAsBuilt.cfg", workers=4, heap="4g", keep_lines=False,
-                          timeout=1800, env_extra=JENV)
-        if neg.ok:
-            raise MachineryError("negative control: the as-built deviations violate no invariant")
+        # (1) design level (separate process): the ideal specification satisfies the property
+        f_ideal = _Bg(IDEAL[tier], max(2, procs // 4))
+        # (2) negative controls: the as-built deviations violate the invariants
+        f_neg = _Bg("DrillholeConcatAsBuilt.cfg", 2, "2g")
+        bg += [f_ideal, f_neg]
+        f_single = {}
+        if tier == "thorough":
+            for d in SINGLE_NEG:
+                f_single[d] = _Bg(f"DrillholeConcatNeg_{d}.cfg", 1, "2g")
+                bg.append(f_single[d])
         # (3) conformance: export the graph for the deviations the implementation shows, replay a path cover
-        for k, cfg in enumerate(EXPORTS[tier]):
-            version = 20 if cfg.endswith("20.cfg") else 21
+        for cfg, version, limit in EXPORTS[tier]:
             devs = list(ALL_DEV) if devs_used is None else sorted(devs_used)
             res, g, init = _export(cfg, devs, work)
             if devs_used is None:
@@ -165,7 +209,6 @@ def run(tier, seed):
                 devs_used = {d for d in ALL_DEV if d in present or d not in witnessed}
                 if devs_used != set(ALL_DEV):
                     res, g, init = _export(cfg, sorted(devs_used), work)
-            limit = None if tier == "thorough" or k == 0 else 400
             items, out, full, wall = _replay_graph(g, init, version, seed, limit)
             exhaustive = exhaustive and full
             states += res.distinct
@@ -183,7 +226,22 @@ def run(tier, seed):
                             "paths": len(items), "tlc_wall_s": round(res.wall_s, 1), "replay_wall_s": round(wall, 1)}
             mid = items[len(items) // 2]
             samples.append({"cfg": cfg, "path": [[s["edge"]["act"], s["edge"]["args"], s["edge"]["out"]] for s in mid["steps"]]})
+        ideal = f_ideal.result()
+        if not ideal["ok"]:
+            raise MachineryError(f"the ideal specification violates {ideal['violated']}\n{ideal['tail']}")
+        neg = f_neg.result()
+        if neg["ok"]:
+            raise MachineryError("negative control: the as-built deviations violate no invariant")
+        singles = {}
+        for d, f in f_single.items():
+            r = f.result()
+            if SINGLE_NEG[d] not in r["violated"]:
+                raise MachineryError(f"negative control {d}: expected {SINGLE_NEG[d]} to be violated, got {r['violated']}")
+            singles[d] = SINGLE_NEG[d]
     finally:
+        for b in bg:
+            if b.proc.poll() is None:
+                b.proc.kill()
         shutil.rmtree(work, ignore_errors=True)
     need = {"AddHole", "AddDepthData", "AddIntervalData", "SetValues", "Rename", "RemoveDataViaParent", "RemoveDataViaWorkspace",
             "RemoveHoleViaParent", "RemoveHoleViaWorkspace", "RemovePropertyGroup", "AddValuesToTable", "Reopen", "CopyGroup"}
@@ -202,8 +260,9 @@ def run(tier, seed):
             "states": states, "transitions": trans, "traces_validated_against_impl": replayed_paths,
             "steps_replayed": replayed_steps, "exhaustive": exhaustive, "samples": samples,
             "per_config": per_cfg, "actions_replayed": dict(acts_seen),
-            "ideal_spec": {"cfg": IDEAL[tier], "states": ideal.distinct, "transitions": ideal.generated, "wall_s": round(ideal.wall_s, 1)},
-            "negative_control": f"DrillholeConcatAsBuilt.cfg violates {neg.violated}",
+            "ideal_spec": {"cfg": IDEAL[tier], "states": ideal["distinct"], "transitions": ideal["generated"], "wall_s": round(ideal["wall_s"], 1)},
+            "negative_control": f"DrillholeConcatAsBuilt.cfg violates {neg['violated']}",
+            "negative_controls_single_deviation": singles,
             "deviations_in_exported_graph": sorted(devs_used or []),
             "deviations_reobserved": {k: v for k, v in sorted(find_count.items())},
             "wall_s": round(time.time() - t_all, 1),
